@@ -56,6 +56,12 @@ def run(tier):
             for g in res["goals"]:
                 if not g.get("ok") and all(v in eff for v, _ in g["mono"]):
                     refused.append((rec, g["error"], "solve"))
+            # the generator keeps non-linear dependencies acyclic, so every variable has to be classified effective
+            if res.get("defective"):
+                chk.violation(f"documented-class loop has variables classified defective: {res['defective']}",
+                              {"case": pipeline.case_to_json(c), "text": c["text_used"], "defective": res["defective"],
+                               "effective": res.get("effective"),
+                               "how": "normalize_program(parse(text)).defective_variables (unsolvable_analysis/solvability_checker.py)"})
             if pipeline.nontrivial_key(rec):
                 chk.nontrivial.add(c["text_used"])
             chk.sample({"text": c["text_used"], "features": c.get("features")}, limit=3)
